@@ -20,6 +20,10 @@ import DisjointImpls.Lemmas.GroupLemmas
 import DisjointImpls.Lemmas.FlatOrder
 import DisjointImpls.Props.C11
 import DisjointImpls.Lemmas.EndToEnd
+import DisjointImpls.CanonAlphaDefs
+import DisjointImpls.Lemmas.EndToEndNested
+import DisjointImpls.Lemmas.Acyclic
+import DisjointImpls.Lemmas.FlatAccept
 open DI
 
 def rToSx : R → Sx
@@ -170,6 +174,29 @@ def handle (cmd : String) (args : List Sx) : Sx :=
   | "canonwf", [item] =>
       -- the hypothesis of `C13_canon_idem` (CanonWF.lean) and the conclusion, both evaluated on the item
       .list [.sym "canonwf", boolSx (canonWF item), boolSx (canon (canon item) == canon item)]
+  | "alpha", [base, variant, pi] =>
+      -- hypotheses and conclusion of C06_renamed_permuted_same_header for a block and a renamed / re-declared presentation of it:
+      -- pi = Pi[lt[a b …], ty[a b …], co[a b …]] (old name, new name, …)
+      let pairs := fun (xs : List String) =>
+        let rec go : List String → List (String × String)
+          | a :: b :: r => (a, b) :: go r
+          | _ => []
+        go xs
+      let π : Renaming := match pi with
+        | .node "Pi" [] [.node "lt" l [], .node "ty" t [], .node "co" c []] => ⟨pairs l, pairs t, pairs c⟩
+        | _ => ⟨[], [], []⟩
+      let renamed := alphaRename π base
+      let ps' := implParams variant
+      let textual := setParams ps' renamed == variant
+      let perm := decide (ps'.Perm (implParams renamed))
+      .list [.sym "alpha", boolSx (canonWF base), boolSx (alphaOK π base), boolSx (formOK π), boolSx textual, boolSx perm,
+             boolSx (groupIdOf (mkBlk variant).item == groupIdOf (mkBlk base).item),
+             boolSx (alphaOKh π base && hdrVis base)]
+  | "hwfdbg", items =>
+      let ids := (mkBuckets (items.map mkBlk)).map (·.1)
+      .list (ids.map (fun g => .list [boolSx (okT_tr g), boolSx (presInj_tr g),
+        .list (((subs_tr g).map (fun u => (erase u, stripTop u))).filterMap (fun p =>
+          if ((subs_tr g).map (fun u => (erase u, stripTop u))).any (fun q => p.1 == q.1 && p.2 != q.2) then some p.2.toSx else none))]))
   | "bounds", [item] =>
       let g := (implGenerics item).getD (.node "?" [] [])
       .list ((findBounds g).map (fun b => .list [b.bounded.toSx, b.tr.toSx,
@@ -194,10 +221,17 @@ def handle (cmd : String) (args : List Sx) : Sx :=
             let F := familyOfGroup [] e
             .list [boolSx (flatGroupOK e), boolSx (hdrCoversB F), boolSx (F.members.all (fun m => memberOK F m)),
                    boolSx (F.members.all (fun m => thetaCoversB F m))])),
-          boolSx (flatInputOK items)]
-      | .unableToForm id => .list [.sym "unable", id.toSx, boolSx (noNesting items), boolSx (flatWF items)]
+          boolSx (flatInputOK items),
+          -- hypothesis of C11_partition / C11_acyclic_of_headersWF (shape of the individual headers)
+          boolSx (headersWF items),
+          -- hypotheses of C02_end_to_end_memberOK / _thetaCovers for nested invocations, per family
+          .list (groups.map (fun e => .list [boolSx (nestedGroupOK (parseEnv items) e), boolSx (nestedCoversB (familyOfGroup [] e))])),
+          -- hypotheses of C03_flat_accepts_exec / C03_flat_acceptance_exact
+          boolSx (flatDistinguished items), boolSx (flatSeparated items)]
+      | .unableToForm id => .list [.sym "unable", id.toSx, boolSx (noNesting items), boolSx (flatWF items),
+          boolSx (flatDistinguished items), boolSx (flatSeparated items)]
       | .panic e => .list [.sym "panic", .str (match e with | .unwrapNone => "unwrap-none" | .fuel => "fuel"),
-          boolSx (noNesting items), boolSx (flatWF items)]
+          boolSx (noNesting items), boolSx (flatWF items), boolSx (flatDistinguished items), boolSx (flatSeparated items)]
   | "rows", [rows] =>
       -- does some member's row generalise another's (code: `is_overlapping`, lib.rs:342-368)? list of offending ordered pairs
       let rs := match rows with
